@@ -170,8 +170,9 @@ func classifyOne(c *chk.Ctx, g *ssa.Go) goClass {
 					break
 				}
 			}
-			if _, isCall := ins.(*ssa.Call); isCall {
+			if call, isCall := ins.(*ssa.Call); isCall && ir.GetterLoad(call) == ssa.Value(call) {
 				// a call before the deferred Done could panic past it; only lock-free prologue allowed
+				// (a pure field getter is a field read)
 				break
 			}
 		}
@@ -370,6 +371,9 @@ func isWatcher(c *chk.Ctx, g *ssa.Go, body *ssa.Function) (bool, string) {
 		case *ssa.Call:
 			if _, ok := doneRecvCtx(x); ok {
 				continue
+			}
+			if ir.GetterLoad(x) != ssa.Value(x) {
+				continue // a pure field getter is a field read
 			}
 			if !found {
 				return false, fmt.Sprintf("calls %s before blocking", ir.CalleeName(&x.Call))
